@@ -238,6 +238,10 @@ func calculateMaxCreation(params *datadoghqv1alpha1.ExtendedDaemonSetSpecStrateg
 	if err != nil {
 		return 0, err
 	}
+	if params.SlowStartIntervalDuration.Duration <= 0 {
+		// no slow start interval: only maxParallelPodCreation limits the creations
+		return int(*params.MaxParallelPodCreation), nil
+	}
 	rollingUpdateDuration := now.Sub(rsStartTime)
 	nbSlowStartSlot := int(rollingUpdateDuration / params.SlowStartIntervalDuration.Duration)
 	result := (1 + nbSlowStartSlot) * startValue
